@@ -19,6 +19,7 @@ import (
 	"sort"
 	"strings"
 	"sync"
+	"sync/atomic"
 	"time"
 
 	"verif/corpus"
@@ -82,6 +83,7 @@ type Config struct {
 	Form    string   // abs | rel | rel-out-named (cwd = parent, -o <OutName>) | rel-in-cwd (cwd = input directory, -i <bare file name>)
 	OutName string   // name of the output directory ("" = out)
 	Fault   string   // "" | outfile-is-dir:<ext>
+	Race    int      // > 0: run number of the free-running pass under Go's race detector (family R)
 	Bad     string   // "" or the name of a bad option set
 	Raw     []string // bad option sets: argument template with {F} and {D}
 }
@@ -90,6 +92,9 @@ func (c Config) String() string {
 	s := fmt.Sprintf("targets=%s order=%s spell=%s file=%q prog=%s dir=%s form=%s", strings.Join(c.Targets, ","), c.Order, c.Spell, c.File, c.Prog, c.Dir, c.Form)
 	if c.Fault != "" {
 		s += " fault=" + c.Fault
+	}
+	if c.Race > 0 {
+		s += fmt.Sprintf(" race-detector-run=%d", c.Race)
 	}
 	if c.OutName != "" {
 		s += " outdir=" + c.OutName
@@ -360,6 +365,25 @@ func enumerate(thorough bool) []Config {
 		}
 		bad("padded-switch:"+fmt.Sprintf("%q", sw), b1, raw...)
 	}
+	// (R) free-running pass under Go's race detector: the command built with -race, every target sequence up to
+	// length 3, two runs each. The command is sequential today; if it ever starts goroutines, an unsynchronised
+	// access between them is reported here whatever the schedule of the run happened to be (the detector works on
+	// happens-before, not on the interleaving that occurred), besides the usual comparison of the written bytes.
+	if tshRaceBin != "" {
+		rp := []string{"ok-small", "ok-import"}
+		for i, p := range corpusProgs {
+			if i%8 == 0 {
+				rp = append(rp, p.Name)
+			}
+		}
+		for _, ts := range targetSeqs(3) {
+			for _, p := range rp {
+				for run := 1; run <= 2; run++ {
+					out = append(out, Config{Targets: ts, Order: canonOrder(len(ts)), Spell: shortSpell(len(ts) + 2), File: "p.tsh", Prog: p, Dir: "empty", Form: "abs", Race: run})
+				}
+			}
+		}
+	}
 	// (D) injected environment fault: the output path of one target is a directory
 	for _, ts := range targetSeqs(2) {
 		for _, ext := range []string{"sh", "bat"} {
@@ -424,6 +448,39 @@ type result struct {
 }
 
 var tshBin string
+
+// tshRaceBin is the command built with Go's race detector ("" = not available here: family R is skipped and counted)
+var tshRaceBin, tshRaceNote string
+
+func buildTshRace() {
+	dir := drive.NewDir("tsh-race-")
+	bin := filepath.Join(dir, "tsh")
+	repo := os.Getenv("VERIF_REPO")
+	if repo == "" {
+		repo = "/repo"
+	}
+	cmd := exec.Command("go", "build", "-race", "-o", bin, ".")
+	cmd.Dir = repo
+	env := []string{}
+	for _, e := range goEnv() {
+		if e != "CGO_ENABLED=0" {
+			env = append(env, e)
+		}
+	}
+	cmd.Env = append(env, "CGO_ENABLED=1")
+	if outb, err := cmd.CombinedOutput(); err != nil {
+		tshRaceNote = "race-detector build not available: " + firstLine(string(outb)) + " " + err.Error()
+		return
+	}
+	std := filepath.Join(dir, "std")
+	os.MkdirAll(std, 0o755)
+	ents, _ := filepath.Glob(filepath.Join(repo, "std", "*.tsh"))
+	for _, e := range ents {
+		b, _ := os.ReadFile(e)
+		os.WriteFile(filepath.Join(std, filepath.Base(e)), b, 0o644)
+	}
+	tshRaceBin = bin
+}
 
 // corpusProgs: the sole-facility programs of package corpus (family F). No class-level expectation: whatever the
 // library returns for a target is what the command must write for it.
@@ -575,9 +632,16 @@ func runConfig(c Config) result {
 	res.Argv = c.argv(rfp, rdp)
 	ctx, cancel := context.WithTimeout(context.Background(), 120*time.Second)
 	defer cancel()
-	cmd := exec.CommandContext(ctx, tshBin, argv...)
+	bin := tshBin
+	if c.Race > 0 {
+		bin = tshRaceBin
+	}
+	cmd := exec.CommandContext(ctx, bin, argv...)
 	cmd.Dir = cwd
 	cmd.Env = []string{}
+	if c.Race > 0 {
+		cmd.Env = []string{"GORACE=halt_on_error=0 exitcode=0"}
+	}
 	var se bytes.Buffer
 	cmd.Stderr = &se
 	cmd.Stdout = &se
@@ -591,6 +655,7 @@ func runConfig(c Config) result {
 		}
 	}
 	res.Stderr = se.String()
+	raceSeen := c.Race > 0 && strings.Contains(res.Stderr, "WARNING: DATA RACE")
 	if len(res.Stderr) > 600 {
 		res.Stderr = res.Stderr[:600]
 	}
@@ -601,6 +666,11 @@ func runConfig(c Config) result {
 	var sy []string
 	if ctx.Err() != nil {
 		sy = append(sy, "runaway")
+	}
+	if raceSeen {
+		// two goroutines of the command touched the same memory without synchronisation: what the run writes
+		// depends on the schedule, so the bytes are not a function of the options
+		sy = append(sy, "data-race")
 	}
 	names := map[string]string{}
 	for _, e := range []string{"sh", "bat"} {
@@ -675,6 +745,12 @@ func runConfig(c Config) result {
 	}
 	sort.Strings(sy)
 	sy = uniq(sy)
+	if raceSeen {
+		// what else such a run shows depends on the schedule: the report itself is the (repeatable) symptom
+		sy = []string{"data-race"}
+		res.Detail += " the race detector reports unsynchronised access between goroutines of the command;"
+		res.Exit = -1
+	}
 	res.Symptoms = strings.Join(sy, "+")
 	if res.Symptoms != "" {
 		res.Detail = fmt.Sprintf("exit status %d; expected %s;%s stderr: %s", res.Exit, res.Expect, res.Detail, firstLine(res.Stderr))
@@ -900,6 +976,12 @@ func Run() int {
 	deadline := r.Deadline(6*time.Minute, 30*time.Minute)
 	r.Set("exhaustive", true)
 	tshBin = buildTsh()
+	buildTshRace()
+	if tshRaceBin == "" {
+		r.Set("race_detector_pass", "skipped: "+tshRaceNote)
+	} else {
+		r.Set("race_detector_pass", "the command built with -race, family R")
+	}
 
 	// the program classes must be what they claim (otherwise the sweep is vacuous)
 	{
@@ -946,7 +1028,17 @@ func Run() int {
 	libOuts := findings.NewDistinct()
 	dims := map[string]map[string]int{"file": {}, "prog": {}, "dir": {}, "form": {}, "order": {}, "spell": {}, "targets": {}, "bad": {}, "fault": {}}
 	done, capped, nondet := 0, false, 0
-	drive.Par(len(cfgs), func(i int) {
+	// family R (race detector) first, as a pass of its own: whether the command has goroutines that race decides how
+	// a command line that gives two results is read below
+	sort.SliceStable(cfgs, func(a, b int) bool { return cfgs[a].Race > 0 && cfgs[b].Race == 0 })
+	nRace := 0
+	for _, c := range cfgs {
+		if c.Race > 0 {
+			nRace++
+		}
+	}
+	var raceFound int32
+	process := func(i int) {
 		if time.Now().After(deadline) {
 			mu.Lock()
 			capped = true
@@ -955,6 +1047,9 @@ func Run() int {
 		}
 		c := cfgs[i]
 		res := runConfig(c)
+		if c.Race > 0 && res.Symptoms == "data-race" {
+			atomic.StoreInt32(&raceFound, 1)
+		}
 		if res.LibNondet {
 			// the library itself gives two answers for one (F, target): unspecified here (property C14)
 			mu.Lock()
@@ -962,9 +1057,39 @@ func Run() int {
 			mu.Unlock()
 			return
 		}
-		if res.Symptoms != "" {
+		// (a report of the race detector is not re-run: the detector has no false positives, and whether a given
+		// run shows the report depends on the schedule)
+		if res.Symptoms != "" && !(c.Race > 0 && res.Symptoms == "data-race") {
 			for k := 0; k < 2; k++ {
 				again := runConfig(c)
+				if (again.Symptoms != res.Symptoms || again.Exit != res.Exit) && tshRaceBin != "" && c.Race == 0 {
+					// the same command line gives two results. If the race detector reports unsynchronised access
+					// between goroutines of the command for this very configuration, the command's result depends on
+					// the schedule (a violation: the written bytes are not a function of the options); otherwise the
+					// harness is at fault (below).
+					rc := c
+					rc.Race = 9
+					rr := runConfig(rc)
+					for try := 0; try < 12 && rr.Symptoms != "data-race"; try++ {
+						// (the detector needs both goroutines' accesses in its window: not every run shows the report)
+						rr = runConfig(rc)
+					}
+					if os.Getenv("VERIF_VERBOSE") != "" {
+						fmt.Fprintf(os.Stderr, "C19: two results for %s; race-detector run: symptoms=%q exit=%d stderr=%q\n", c, rr.Symptoms, rr.Exit, firstLine(rr.Stderr))
+					}
+					if rr.Symptoms != "data-race" && atomic.LoadInt32(&raceFound) != 0 {
+						// the race-detector pass found goroutines of this command racing (family R reports it)
+						rr = res
+						rr.Detail += " the same command line gave another result on a re-run, and the race-detector pass reports racing goroutines in the command;"
+						rr.Symptoms = "data-race"
+					}
+					if rr.Symptoms == "data-race" {
+						res = rr
+						res.C = c
+						res.Symptoms = "schedule-dependent+data-race"
+						break
+					}
+				}
 				if again.Symptoms != res.Symptoms || again.Exit != res.Exit {
 					harnessError("replay of a failing configuration did not reproduce: %s\nfirst: %s (exit %d)\nagain: %s (exit %d)", c, res.Symptoms, res.Exit, again.Symptoms, again.Exit)
 				}
@@ -1004,7 +1129,10 @@ func Run() int {
 		if i%211 == 0 {
 			r.Sample(map[string]string{"kind": "configuration", "config": c.String(), "argv": strings.Join(res.Argv, " "), "expect": res.Expect, "exit": fmt.Sprint(res.Exit), "symptoms": res.Symptoms})
 		}
-	})
+	}
+	drive.Par(nRace, process)
+	drive.Par(len(cfgs)-nRace, func(i int) { process(nRace + i) })
+	r.Set("race_detector_runs", nRace)
 
 	// ---- verdicts: a whole cell (expectation class, target sequence, fault) failing in one way is one key;
 	// anything less regular is reported with its full coordinates.
@@ -1053,7 +1181,7 @@ func Run() int {
 		r.Set("exhaustive", false)
 		r.Set("cap_hit", "sweep stopped at the internal deadline")
 	}
-	r.Set("rule", "a case = one execution of the real tsh binary (built from /repo at check time) in a fresh tree; coordinates: arrangement of the pairs -i/-o/-t..., short/long spelling per pair, target sequence of length 1..3 (4 in thorough sweep B), input file name (5), program class (8: 2 accepted, lexical/syntax/type/conversion error, missing file, directory), output directory (empty / pre-populated with sentinel outputs), path form (absolute / relative), 70+ malformed option sets, 1 injected write fault, plus (F) every sole-facility program of package corpus x every target sequence of length <= 2 (3 in thorough), (G) arguments that begin or end with white space: 5 such input names (a decoy program under the trimmed name next to each) x 3 path forms x 2 orders, 4 such output directories (a decoy directory under the trimmed name), padded target names and switches as malformed option sets; distinct by the full coordinate string; non-trivial: every case compares exit status, the full before/after content of the output directory against the library's bytes, and the input's bytes and mtime")
+	r.Set("rule", "a case = one execution of the real tsh binary (built from /repo at check time) in a fresh tree; coordinates: arrangement of the pairs -i/-o/-t..., short/long spelling per pair, target sequence of length 1..3 (4 in thorough sweep B), input file name (5), program class (8: 2 accepted, lexical/syntax/type/conversion error, missing file, directory), output directory (empty / pre-populated with sentinel outputs), path form (absolute / relative), 70+ malformed option sets, 1 injected write fault, plus (F) every sole-facility program of package corpus x every target sequence of length <= 2 (3 in thorough), (R) the command built with Go's race detector run free on every target sequence up to length 3 (a report of unsynchronised access between goroutines is the symptom data-race), (G) arguments that begin or end with white space: 5 such input names (a decoy program under the trimmed name next to each) x 3 path forms x 2 orders, 4 such output directories (a decoy directory under the trimmed name), padded target names and switches as malformed option sets; distinct by the full coordinate string; non-trivial: every case compares exit status, the full before/after content of the output directory against the library's bytes, and the input's bytes and mtime")
 	r.Assumef("the library's result for (F, program, target) is computed in-process by the transpiler linked from the same /repo working tree, on the path of the first run that needs it and on a copy in another directory (the two must agree, else the case is counted unspecified), then reused for every run with the same F, program and target; std is copied from /repo/std next to both executables")
 	r.Assumef("on an error the property fixes only: non-zero exit status, no new or changed output for a failing target, input untouched; a requested target that did not fail may be written exactly or not at all; the text and the value of a non-zero status are not compared")
 	r.Assumef("a trailing switch without a value and a stray word are counted as bad options")
